@@ -126,7 +126,13 @@ fn execute(sc: &Scenario, acc: &mut Acc) -> Result<Vec<Violation>, String> {
             }
         }
         acc.calls += a2.calls;
-        acc.ops += a2.ops;
+        if results.len() == 5 {
+            // flavour F: how many operations are in flight when a kill lands is the operating
+            // system's doing; counted apart so that the run's totals stay a function of the seed
+            *acc.reach.entry("storage_ops_on_multi_thread_runtime".into()).or_default() += a2.ops;
+        } else {
+            acc.ops += a2.ops;
+        }
         if a2.reach.get("ops_delayed").copied().unwrap_or(0) > 0 {
             acc.hit("ops_delayed");
         }
